@@ -196,6 +196,16 @@ def consequence(e, pbf, counts, out):
         out.append((f"nominal_instance_cannot_be_parsed|{label}|pbf={int(pbf)}|{type(ex).__name__}", str(ex)))
         return
     payload = frame[6:-2]
+    # every declared attribute can be SUPPLIED by name: the nominal instance rebuilt from all of its own attributes
+    # (definitions with high-precision companions are left to C03: their parsed value merges two fields)
+    if kwroute is not None and len(payload) > 0 and not any(str(k).startswith("_HP") for k in e.pdict):
+        attrs = {k: v for k, v in m2.__dict__.items() if not k.startswith("_")}
+        try:
+            m4 = UBXMessage(e.clsid[0:1], e.clsid[1:2], e.mode, parsebitfield=pbf, **attrs)
+            if m4.serialize() != frame:
+                out.append((f"nominal_instance_not_rebuilt_from_its_attributes|{label}|pbf={int(pbf)}", f"{m4.serialize().hex()[:60]} vs {frame.hex()[:60]}"))
+        except Exception as ex:  # noqa: BLE001
+            out.append((f"declared_attribute_cannot_be_supplied|{label}|pbf={int(pbf)}|{type(ex).__name__}", str(ex)))
     # the same instance laid out by the reference (group counts written into the payload): one attribute per named field
     try:
         pl2 = C.build_payload(e, lambda x: max(counts, 1), max(counts, 1), lambda i: (3 * i + 1) % 200)
